@@ -185,6 +185,7 @@ impl GSpec {
                     0 => VT::B,
                     1 => VT::Z,
                     2 => VT::X,
+                    3 => VT::Other(0),
                     k => VT::Other(k),
                 },
                 num: n,
@@ -206,6 +207,7 @@ impl GSpec {
             inputs: self.inputs.clone(),
             outputs: self.outputs.clone(),
             scalar,
+            scalar_dyadic: None,
         }
     }
 }
@@ -631,4 +633,142 @@ pub fn circuit_to_spec(c: &HCirc) -> Option<GSpec> {
         g.outputs.push(b);
     }
     Some(g)
+}
+
+// ------------------------------------------------------------------------------------------
+// general diagrams for the JSON round trip (C13)
+// ------------------------------------------------------------------------------------------
+
+pub fn json_diagram(d: &mut Decider) -> GSpec {
+    let mut g = GSpec::empty();
+    let nsp = d.choose("j.nsp", 11);
+    let nin = d.choose("j.nin", 4);
+    let nout = d.choose("j.nout", 4);
+    let dens: [i64; 16] = [1, 1, 2, 4, 4, 8, 3, 5, 7, 16, 64, 256, 255, 97, 128, 12];
+    let big_dens: [i64; 4] = [257, 1000, 65537, 1 << 20];
+    let allow_big = d.coin("j.big", 1, 12);
+    let hbox = d.coin("j.hbox", 1, 8);
+    let mut spiders = vec![];
+    for _ in 0..nsp {
+        let ty: Ty = if hbox && d.coin("j.ish", 1, 5) {
+            3
+        } else if d.coin("j.isx", 1, 3) {
+            2
+        } else {
+            1
+        };
+        let v = if ty == 3 {
+            // H-box: default phase 1
+            g.add(3, 1, 1)
+        } else {
+            let den = if allow_big && d.coin("j.usebig", 1, 4) {
+                *d.pick("j.bden", &big_dens)
+            } else {
+                *d.pick("j.den", &dens)
+            };
+            let num = d.range("j.num", -(den - 1), den);
+            let (n, dd) = reduce(num, den);
+            g.add(ty, n, dd)
+        };
+        spiders.push(v);
+    }
+    // edges among spiders
+    let p = d.choose("j.p", 70);
+    for i in 0..spiders.len() {
+        for j in (i + 1)..spiders.len() {
+            if d.choose("j.e", 100) < p {
+                // H-boxes take plain edges only
+                let had = g.verts[spiders[i]].0 != 3 && g.verts[spiders[j]].0 != 3 && d.coin("j.h", 1, 2);
+                g.edges.push((spiders[i], spiders[j], had));
+            }
+        }
+    }
+    // boundaries
+    let mut bs = vec![];
+    for _ in 0..nin {
+        let b = g.add(0, 0, 1);
+        g.inputs.push(b);
+        bs.push(b);
+    }
+    for _ in 0..nout {
+        let b = g.add(0, 0, 1);
+        g.outputs.push(b);
+        bs.push(b);
+    }
+    // shuffle the order in which boundaries get attached, allow bare wires
+    let order = d.permutation("j.border", bs.len());
+    let mut free: Vec<usize> = order.iter().map(|&i| bs[i]).collect();
+    while let Some(b) = free.pop() {
+        let wire = !free.is_empty() && (spiders.is_empty() || d.coin("j.wire", 1, 5));
+        if wire {
+            let o = free.pop().unwrap();
+            g.edges.push((b.min(o), b.max(o), d.coin("j.wh", 1, 2)));
+        } else if !spiders.is_empty() {
+            let s = spiders[d.choose("j.bs", spiders.len())];
+            let had = g.verts[s].0 != 3 && d.coin("j.bh", 1, 3);
+            g.edges.push((s.min(b), s.max(b), had));
+        } else {
+            // a single dangling boundary with nothing to attach to: drop it
+            g.inputs.retain(|&x| x != b);
+            g.outputs.retain(|&x| x != b);
+            // leave the vertex out by marking; handled below
+            g.verts[b].0 = 255;
+        }
+    }
+    // remove marked vertices
+    while let Some(v) = g.verts.iter().position(|v| v.0 == 255) {
+        g = g.without_vertex(v);
+    }
+    // coordinates
+    match d.choose("j.coord", 6) {
+        0 => {} // all (0,0): maximal collisions
+        1 => {
+            for (i, v) in g.verts.iter_mut().enumerate() {
+                v.3 = (i % 3) as f64;
+                v.4 = (i / 3) as f64;
+            }
+        }
+        2 => {
+            for v in g.verts.iter_mut() {
+                v.3 = d.range("j.cq", -8, 8) as f64 * 0.25;
+                v.4 = d.range("j.cr", -8, 8) as f64 * 0.5;
+            }
+        }
+        _ => {
+            for (i, v) in g.verts.iter_mut().enumerate() {
+                v.3 = i as f64 + 0.125 * d.range("j.fq", 0, 7) as f64;
+                v.4 = (2 * i) as f64 - 3.0 + 0.001 * d.range("j.fr", 0, 999) as f64;
+            }
+        }
+    }
+    // scalar
+    match d.choose("j.scal", 6) {
+        0 => {}
+        1 | 2 => {
+            g.sqrt2_pow = d.range("j.sp", -12, 12) as i32;
+            g.omega_pow = d.range("j.sk", 0, 7);
+        }
+        3 | 4 => {
+            g.sqrt2_pow = d.range("j.sp", -6, 6) as i32;
+            g.omega_pow = d.range("j.sk", 0, 7);
+            let k = 1 + d.choose("j.nop", 4);
+            for _ in 0..k {
+                // (1 + ω^k) factors with k not 4 (which would be zero)
+                let a = *d.pick("j.op", &[1, 2, 3, 5, 6, 7]);
+                let (n, dd) = reduce(a, 4);
+                g.one_plus.push((n, dd));
+            }
+        }
+        _ => {
+            g.sqrt2_pow = d.range("j.sp", -3, 3) as i32;
+            let k = 1 + d.choose("j.nop", 3);
+            for _ in 0..k {
+                let den = *d.pick("j.opd", &[3, 5, 8, 16, 7]);
+                let num = d.range("j.opn", 1, den - 1);
+                let (n, dd) = reduce(num, den);
+                g.one_plus.push((n, dd));
+            }
+        }
+    }
+    g
 }
